@@ -824,6 +824,11 @@ def gen_adaptive(rng, tier, slice_only=False):
             ops.append(f"adaptive.rt @r:{hx(rng.getrandbits(60))}:{hx(n)}:0:{hx(rng.choice([M64, 1 << 60, 1 << 33]))}")
             # periodic data that misleads the sampler above 10000 elements
             ops.append(f"adaptive.rt @p:{hx(rng.getrandbits(60))}:{hx(n)}:{hx(rng.choice([0, 1 << 56]))}:{hx(rng.choice([1 << 62, 1 << 40, 1600]))}")
+    # above 10000 elements uniqueness is estimated from a sample: few-distinct arrays on both sides of the 15 % dictionary
+    # threshold, lengths that are and are not multiples of the sampling stride
+    for n in (10001, 10007, 10010) + ((12345, 20011) if big else ()):
+        for card in (100, 140, 160, 1000):
+            ops.append(f"adaptive.rt @u:{hx(rng.getrandbits(60))}:{hx(n)}:{hx(rng.choice([0, 1 << 40]))}:{hx(card)}")
     if big:
         # an array whose distinct values repeat with the sampler's period
         for n in (20000, 30001):
